@@ -30,12 +30,14 @@ def run_one(run, timeout):
     out = {"ok": "ok", "sols": [], "opt": [1, 0], "stats": []}
     signal.setitimer(signal.ITIMER_REAL, timeout)
     try:
-        s = BacktrackSolver(problems.to_nucs(P), consistency_alg_idx=cfg.get("ca", 0), var_heuristic_idx=cfg.get("vh", 0),
+        prob = problems.to_nucs_incremental(P) if run.get("build") == "incremental" else problems.to_nucs(P)
+        s = BacktrackSolver(prob, consistency_alg_idx=cfg.get("ca", 0), var_heuristic_idx=cfg.get("vh", 0),
                             dom_heuristic_idx=cfg.get("dh", 0), stack_max_height=cfg.get("height", 128), log_level="ERROR", **kw)
         if run.get("mode", "solve") == "solve":
             cap = run.get("cap", 6000)
+            nv = len(P["vidx"])
             for x in s.solve():
-                out["sols"].append([int(v) for v in x])
+                out["sols"].append([int(v) for v in x][:nv])
                 if len(out["sols"]) > cap:
                     out["ok"] = "skip"
                     break
@@ -43,7 +45,7 @@ def run_one(run, timeout):
             r = s.minimize(run["var"]) if run["mode"] == "min" else s.maximize(run["var"])
             if r is not None:
                 out["opt"] = [0, int(r[run["var"]])]
-                out["sols"] = [[int(v) for v in r]]
+                out["sols"] = [[int(v) for v in r][:len(P["vidx"])]]
         out["stats"] = [int(v) for v in s.statistics]
     except _TO:
         out["ok"] = "skip"
